@@ -204,7 +204,7 @@ int main(int argc, char **argv)
         return 0;
     /* (b) a signal at every point between fork() and exec.  closeall() makes one close() per possible descriptor:
      * keep that loop short */
-    rl.rlim_cur = rl.rlim_max = 24;
+    rl.rlim_cur = rl.rlim_max = 16;
     setrlimit(RLIMIT_NOFILE, &rl);
     sh = mmap(NULL, sizeof *sh, PROT_READ | PROT_WRITE, MAP_SHARED | MAP_ANONYMOUS, -1, 0);
     if (sh == MAP_FAILED)
